@@ -25,6 +25,9 @@ CLAIMED = {
  "C19": dict(engine="E2 timer histories", ref="5/C19", technique="property-based testing (proptest) with a pairwise order oracle over each run's firing log",
    text="Generated bursts of short fixed timers sharing or nearly sharing instants are expired by single runs; for each pair firing in one run the one with the smaller deadline (by >= 2 steps) must run first, identical instant+creation time must run in creation order, and main-queue calls queued before run() must start before the first callback.",
    note=TIMERS_NOTE),
+ "C17": dict(engine="E3 queue differential", ref="5/C17", technique="differential property-based testing (proptest op sequences + enumerated boundary sweep) of flat.rs against boxed.rs compiled side by side",
+   text="The same push/push_box/execute/is_empty/drop sequences, over 183 closure shapes (sizes 0..4096 x alignments 1..128, dense around powers of two) and closures that push onto other queues while executing, are applied to the flat and the boxed queue; complete event logs (closure run with a hash of its captured bytes, un-run drops, is_empty answers) must be identical and captured byte patterns intact. A deterministic sweep places every shape at every 8-byte residual fill level before each growth boundary. Debug assertions on; process crashes are replayed in a fresh process and reported only if they reproduce.",
+   note="Trusted: rustc/std, proptest, boxed.rs as the reference implementation. The flat queue is exercised through the same generic entry points Stakker uses (push with monomorphised closures, push_box, execute, Drop). AddressSanitizer coverage comes from the fuzz leg when built (thorough)."),
 }
 
 NOT_YET = "check not built yet in this session (planned, see DESIGN.md section 5); not claimed until it exists and passes its sensitivity self-test"
@@ -62,6 +65,7 @@ def main():
             "add_only": True,
         },
         "engines": [
+            {"name": "E3 queue differential", "path": "/verif/harness/vcore/src/queues.rs", "serves_properties": ["C17"], "kind_free_text": "flat.rs vs boxed.rs side by side: enumerated boundary sweep + proptest op sequences, event-log equality"},
             {"name": "E2 timer histories", "path": "/verif/harness/vcore/src/timers.rs", "serves_properties": ["C07", "C08", "C09", "C10", "C19"], "kind_free_text": "proptest byte strings -> timer histories -> real Stakker in virtual time vs deadline model"},
         ],
         "checks": checks,
